@@ -113,6 +113,7 @@ def check(ctx):
     foreign_keys(ctx, repo, itf)
     narrowing(ctx, repo)
     announced(ctx, repo, itf)
+    exact_comparisons(ctx, repo, itf)
 
 
 def must_call(ctx, repo, itf):
@@ -169,6 +170,23 @@ def must_call(ctx, repo, itf):
     ctx.floor("F1", 6)
 
 
+TOLERANT = ("isclose", "allclose", "approx", "assert_almost_equal", "round", "around", "rint")
+
+
+def exact_comparisons(ctx, repo, itf, rid="F5"):
+    ctx.rule(rid, "validators and the type converter compare exactly: no tolerance-based or rounding comparison (isclose / allclose / round) decides whether input is accepted")
+    gt = repo.module("gettsim_typing.py")
+    targets = [(itf, n) for n in [*VALIDATORS, "_fail_if_duplicates_in_columns"]] + [(gt, "convert_series_to_internal_type"), (gt, "check_series_has_expected_type")]
+    for mod, name in targets:
+        fd = mod.functions.get(name)
+        if fd is None:
+            continue
+        bad = [n for n in ast.walk(fd) if isinstance(n, ast.Call) and ((isinstance(n.func, ast.Attribute) and n.func.attr in TOLERANT) or (isinstance(n.func, ast.Name) and n.func.id in TOLERANT))]
+        ctx.ob(rid, ok=not bad, distinct=name)
+        for n in bad:
+            ctx.violation(rid, f"{name}|{ast.unparse(n.func)}", mod.loc(n) + f" {name}", f"`{ast.unparse(n)[:80]}` accepts input that differs from what it is checked against by a tolerance: values that are not constant within a group / not integral are let through and changed")
+
+
 def validators(ctx, repo, itf):
     ctx.rule("F2", "each validator raises under a condition computed from its argument")
     for v in [*VALIDATORS, "_fail_if_duplicates_in_columns", "_fail_if_root_nodes_are_missing"]:
@@ -203,12 +221,32 @@ def validators(ctx, repo, itf):
         ctx.violation("F2", "_fail_if_pid_is_non_unique|two-checks", itf.loc(fd), "the p_id validator no longer rejects both a missing and a non-unique p_id")
     fd = itf.functions["_fail_if_foreign_keys_are_invalid"]
     loops = [n for n in walk_own(fd) if isinstance(n, ast.For)]
-    ok = len(loops) == 1 and ast.unparse(loops[0].iter) == "FOREIGN_KEYS" and sum(isinstance(n, ast.Raise) for n in ast.walk(loops[0])) >= 2
-    t = ast.unparse(fd)
-    ok = ok and "isin" in t and "== data['p_id']" in t
+    fk_locals = {"FOREIGN_KEYS"}
+    for n in walk_own(fd):
+        if isinstance(n, ast.Assign) and isinstance(n.targets[0], ast.Name) and any(isinstance(x, ast.Name) and x.id in fk_locals for x in ast.walk(n.value)):
+            fk_locals.add(n.targets[0].id)
+    ok = bool(loops) and all(any(isinstance(x, ast.Name) and x.id in fk_locals for x in ast.walk(lp.iter)) for lp in loops) and sum(isinstance(n, ast.Raise) for n in ast.walk(fd)) >= 2
     ctx.ob("F2", ok=ok, distinct="fk-two-checks")
     if not ok:
-        ctx.violation("F2", "_fail_if_foreign_keys_are_invalid|two-checks", itf.loc(fd), "the foreign-key validator no longer loops over FOREIGN_KEYS rejecting both pointers to a missing person and pointers to oneself")
+        ctx.violation("F2", "_fail_if_foreign_keys_are_invalid|two-checks", itf.loc(fd), "the foreign-key validator no longer iterates over FOREIGN_KEYS with (at least) two rejections: pointers to a missing person and pointers to oneself")
+    # F6: an accumulator overwritten in a loop keeps only the last iteration
+    for v in [*VALIDATORS, "_fail_if_duplicates_in_columns"]:
+        vf = itf.functions[v]
+        body = vf.body
+        for i, st in enumerate(body):
+            if not isinstance(st, ast.For):
+                continue
+            before = {t.id for b in body[:i] for n in ast.walk(b) if isinstance(n, ast.Assign) for t in n.targets if isinstance(t, ast.Name)}
+            after = {x.id for b in body[i + 1:] for x in ast.walk(b) if isinstance(x, ast.Name) and isinstance(x.ctx, ast.Load)}
+            for n in ast.walk(st):
+                if isinstance(n, ast.Assign) and isinstance(n.targets[0], ast.Name):
+                    nm = n.targets[0].id
+                    if nm in before and nm in after and not any(isinstance(x, ast.Name) and x.id == nm for x in ast.walk(n.value)):
+                        # overwritten without reading its previous value, and not consumed inside the loop before the next overwrite
+                        used_in_loop = any(isinstance(x, ast.Name) and x.id == nm and isinstance(x.ctx, ast.Load) for x in ast.walk(st))
+                        ctx.ob("F2", ok=used_in_loop, distinct=(v, nm))
+                        if not used_in_loop:
+                            ctx.violation("F2", f"{v}|overwritten-accumulator|{nm}", itf.loc(n) + f" {v}", f"`{ast.unparse(n)[:70]}` overwrites `{nm}` in every iteration although it is initialised before the loop and only read after it: only the last column is actually checked")
     # -1 (no pointer) is the only value admitted besides existing p_ids
     sets = [n for n in ast.walk(fd) if isinstance(n, ast.Set)]
     ok = any(len(x.elts) == 1 and ast.unparse(x.elts[0]) == "-1" for x in sets)
